@@ -375,6 +375,7 @@ func (e *Environment) update(name string, found, val Object) Object {
 	}
 	if rr, ok := found.(Reference); ok {
 		log.Debugf("SetNoChecks(%s) updating ref %s in %d", name, rr.Name, rr.RefEnv.depth)
+		e.getMiss++ // writing to an outer variable is a side effect: not cacheable (whatever the variable holds).
 		e = rr.RefEnv
 		name = rr.Name
 	}
@@ -400,6 +401,7 @@ func (e *Environment) SetNoChecks(name string, val Object, create bool) Object {
 	// New name... let's see if it's really new or making it a ref.
 	if ref, ok := e.makeRef(name); ok {
 		log.Debugf("SetNoChecks(%s) created ref %s in %d", name, ref.Name, ref.RefEnv.depth)
+		e.getMiss++ // writing to an outer variable is a side effect: not cacheable (whatever the variable holds).
 		ref.RefEnv.changing(ref.Name)
 		ref.RefEnv.store[ref.Name] = Value(val) // kinda neat to make aliases but it can create loops, so not for now.
 		return val
